@@ -14,8 +14,8 @@ bin="$dir/simrun-$kind"
 mkdir -p "$dir" || exit 2
 exec 9>"$dir/.lock"; flock 9
 if [ ! -x "$bin" ]; then
-  # keep the build directory small: drop builds of other trees
-  for d in "$VERIF_DIR"/build/*-*; do [ -d "$d" ] && [ "$d" != "$dir" ] && rm -rf "$d"; done
+  # keep the build directory small: keep only the most recently used builds of other trees
+  ls -dt "$VERIF_DIR"/build/*-*/ 2>/dev/null | grep -v "^$dir/\$" | tail -n +8 | while read -r d; do rm -rf "$d"; done
   mkdir -p "$VERIF_DIR/build/bin"
   if [ ! -x "$VERIF_DIR/build/bin/instrument" ] || [ -n "$(find cmd/instrument -newer "$VERIF_DIR/build/bin/instrument" -type f 2>/dev/null)" ]; then
     go build -o "$VERIF_DIR/build/bin/instrument" ./cmd/instrument >&2 || { echo "build.sh: cannot build the instrumenter" >&2; exit 2; }
@@ -31,4 +31,5 @@ if [ ! -x "$bin" ]; then
   go build "${flags[@]}" -o "$bin.tmp" ./cmd/simrun >&2 || { echo "build.sh: harness build failed" >&2; exit 2; }
   mv "$bin.tmp" "$bin"
 fi
+touch "$dir"
 echo "$bin"
